@@ -256,21 +256,22 @@ func runUnit(w *World, u *unitRun, tmp string, quickT, slowT int, verbose bool) 
 		g.addAssumption("region " + u.Unit + ": only the listed loops are verified, each as a region whose precondition is its loop invariant; that the invariant holds when the loop is first reached, and what the rest of the function does, is not verified")
 		return
 	}
+	if os.Getenv("GOVC_ANCHORS") != "" {
+		// print the anchors a contract can refer to: return ordinals (source order)
+		for _, b := range fn.Blocks {
+			for _, in := range b.Instrs {
+				if r, ok := in.(*ssa.Return); ok {
+					fmt.Fprintf(os.Stderr, "  anchor %s ret%d at line %d\n", u.Unit, retOrdinalOf(fn, r), w.fset.Position(r.Pos()).Line)
+				}
+			}
+		}
+	}
 	if err := g.Run(); err != nil {
 		u.Err = err
 		return
 	}
 	if os.Getenv("GOVC_ANCHORS") != "" {
-		// print the anchors a contract can refer to: return ordinals, loop ordinals, call sites
-		n := 0
-		for _, b := range fn.Blocks {
-			for _, in := range b.Instrs {
-				if r, ok := in.(*ssa.Return); ok {
-					n++
-					fmt.Fprintf(os.Stderr, "  anchor %s ret%d at line %d\n", u.Unit, n, w.fset.Position(r.Pos()).Line)
-				}
-			}
-		}
+		// ... loop ordinals, call sites
 		for _, li := range g.loopOfHeader {
 			fmt.Fprintf(os.Stderr, "  anchor %s loop %d at line %d\n", u.Unit, li.ordinal, w.fset.Position(g.loopPos(li.header)).Line)
 		}
@@ -379,6 +380,8 @@ func report(w *World, units []*unitRun, prop, tier, verif string, t0 time.Time, 
 			machineryErr = true
 		}
 		postSeen := map[string]bool{}
+		var vacuous []*Result
+		unitFailed := 0
 		for _, r := range u.Results {
 			total++
 			solverMs += r.Ms
@@ -423,8 +426,18 @@ func report(w *World, units []*unitRun, prop, tier, verif string, t0 time.Time, 
 					discharged++ // accounted for, not counted as a violation
 					continue
 				}
-				failed = append(failed, r)
+				if r.Status == "vacuous" {
+					vacuous = append(vacuous, r)
+				} else {
+					failed = append(failed, r)
+					unitFailed++
+				}
 			}
+		}
+		// a dead point is reported only if nothing else failed in the unit: a refuted cut (assert) is assumed
+		// afterwards, so everything behind it is dead as a consequence and would only repeat the report
+		if unitFailed == 0 {
+			failed = append(failed, vacuous...)
 		}
 		// every ensures clause must have produced at least one obligation
 		for i, c := range u.Fc.Ensures {
